@@ -503,7 +503,15 @@ func (e *OpEngine) DataInstances(want func(string) bool, b DataBounds) []*DataCa
 	unary("Pow", shapesUpTo(DataBounds{MaxRank: 2, Sizes: []int{1, 2}, MaxElts: 4}, 0), func(e *OpEngine, d []int) [][]interp.Value {
 		return [][]interp.Value{{interp.FloatV{E: sym.SymE("c")}}}
 	}, false)
-	unary("Transpose", withDeep(shapesUpTo(b, 2), 2), nil, false)
+	thrS := append(append([][]int{}, thr0...), thrL...) // shapes beyond every harvested constant, for the structural operations
+	thrS1 := append(append([][]int{}, thr1...), thrL...)
+	var thrS2 [][]int
+	for _, d := range thrS {
+		if len(d) >= 2 {
+			thrS2 = append(thrS2, d)
+		}
+	}
+	unary("Transpose", append(withDeep(shapesUpTo(b, 2), 2), thrS2...), nil, false)
 	dimVariants := func(hiFn func(r int) int) func(e *OpEngine, d []int) [][]interp.Value {
 		return func(e *OpEngine, d []int) [][]interp.Value {
 			var vs [][]interp.Value
@@ -513,8 +521,8 @@ func (e *OpEngine) DataInstances(want func(string) bool, b DataBounds) []*DataCa
 			return vs
 		}
 	}
-	unary("UnSqueeze", all, dimVariants(func(r int) int { return r }), false)
-	unary("Flatten", withDeep(shapesUpTo(b, 1), 1), dimVariants(func(r int) int { return r - 1 }), false)
+	unary("UnSqueeze", append(append([][]int{}, all...), thrS...), dimVariants(func(r int) int { return r }), false)
+	unary("Flatten", append(withDeep(shapesUpTo(b, 1), 1), thrS1...), dimVariants(func(r int) int { return r - 1 }), false)
 	unary("Squeeze", shapesUpTo(b, 1), func(e *OpEngine, d []int) [][]interp.Value {
 		var vs [][]interp.Value
 		for k, x := range d {
@@ -532,7 +540,7 @@ func (e *OpEngine) DataInstances(want func(string) bool, b DataBounds) []*DataCa
 		}
 		unary(n, sh, dimVariants(func(r int) int { return r - 1 }), ordered)
 	}
-	unary("Reshape", all, func(e *OpEngine, d []int) [][]interp.Value {
+	unary("Reshape", append(append([][]int{}, all...), thrS...), func(e *OpEngine, d []int) [][]interp.Value {
 		n := 1
 		for _, x := range d {
 			n *= x
@@ -550,7 +558,7 @@ func (e *OpEngine) DataInstances(want func(string) bool, b DataBounds) []*DataCa
 		}
 		return vs
 	}, false)
-	unary("Slice", withDeep(shapesUpTo(b, 0), 0), func(e *OpEngine, d []int) [][]interp.Value {
+	unary("Slice", append(withDeep(shapesUpTo(b, 0), 0), thrS...), func(e *OpEngine, d []int) [][]interp.Value {
 		var vs [][]interp.Value
 		for _, idx := range sliceIndexes(d) {
 			vs = append(vs, []interp.Value{e.cRanges(idx)})
@@ -776,9 +784,19 @@ func (e *OpEngine) DataInstances(want func(string) bool, b DataBounds) []*DataCa
 	for _, n := range []string{"Add", "Sub", "Mul", "Div"} {
 		binary(n, bpairs, false, nil)
 	}
-	binary("Dot", append(dotPairsC(b), thrDot...), false, nil)
-	binary("MatMul", append(matmulPairsC(b), thrMM...), false, nil)
-	binary("Patch", patchPairsC(b), false, func(e *OpEngine, da, db []int) [][]interp.Value {
+	// batch broadcasting across a rank gap of two with a stretched unit dimension below the gap
+	deepDot := [][2][]int{{{2, 1, 2}, {2, 3, 2, 2, 2}}, {{3, 2, 1, 2}, {2, 2}}}
+	deepMM := [][2][]int{{{2, 1, 1, 1}, {2, 3, 2, 2, 1, 1}}, {{2, 3, 2, 1, 1, 2}, {2, 1, 2, 1}}}
+	binary("Dot", append(append(dotPairsC(b), thrDot...), deepDot...), false, nil)
+	binary("MatMul", append(append(matmulPairsC(b), thrMM...), deepMM...), false, nil)
+	patchPairs := patchPairsC(b)
+	for _, d := range thrS {
+		// a source just beyond the constant patched into a slightly larger target, and into one of its own size
+		big := append([]int{}, d...)
+		big[0] += 2
+		patchPairs = append(patchPairs, [2][]int{big, d}, [2][]int{d, d})
+	}
+	binary("Patch", patchPairs, false, func(e *OpEngine, da, db []int) [][]interp.Value {
 		var vs [][]interp.Value
 		for _, idx := range patchIndexes(da, db) {
 			vs = append(vs, []interp.Value{e.cRanges(idx)})
